@@ -445,10 +445,12 @@ Definition w5_sched : list (bool * nat) :=
   repeat (false, 0%nat) 5 ++ repeat (true, 0%nat) 9 ++ repeat (false, 0%nat) 6 ++ repeat (true, 0%nat) 5 ++ repeat (false, 0%nat) 10.
 Theorem C20_x_channel_send_refuted :
   let x := xrun (cfg_of Repaired 2) BlockingSend (xsys0 w5_progs w5_aux) w5_sched in
-  xclients_done x = true /\
-  (exists a, nth_error (x_aux x) 0 = Some a /\ afinished a = false /\ ss_mu (x_ss x) = false /\
-             xstep_aux BlockingSend (x_sh x) (x_ss x) a = None).
-Proof. vm_compute. split; [reflexivity|]. eexists; repeat split; reflexivity. Qed.
+  xclients_done x = true /\ ss_mu (x_ss x) = false /\
+  match nth_error (x_aux x) 0 with
+  | Some a => afinished a = false /\ xstep_aux BlockingSend (x_sh x) (x_ss x) a = None
+  | None => False
+  end.
+Proof. vm_compute. repeat split; reflexivity. Qed.
 Print Assumptions C20_x_channel_send_refuted.
 
 (* the same run with the code's select/default: the tick completes, the second update is counted as dropped,
@@ -464,21 +466,20 @@ Print Assumptions C20_x_nonvacuous.
 (* the two real waits do occur: (a) two Subscribe calls — the second waits at tickMu.Lock() while the first is in the critical
    section, and goes on once it has left; (b) two clients handed the tombstone — the second waits in Once.Do while the first
    runs the initialiser *)
+Definition is_none {A} (o : option A) : bool := match o with None => true | Some _ => false end.
 Example C20_x_waits_nonvacuous :
   (let x := xrun (cfg_of Repaired 2) SelectDefault (xsys0 [] [[SSubscribe 1]; [SSubscribe 1]]) [(false,0);(false,0);(false,0);(false,1);(false,1)]%nat in
-   (exists a, nth_error (x_aux x) 1 = Some a /\ xstep_aux SelectDefault (x_sh x) (x_ss x) a = None) /\
+   match nth_error (x_aux x) 1 with Some a => is_none (xstep_aux SelectDefault (x_sh x) (x_ss x) a) = true | None => False end /\
    let y := xrun (cfg_of Repaired 2) SelectDefault x [(false,0);(false,0)]%nat in
-   exists a, nth_error (x_aux y) 1 = Some a /\ xstep_aux SelectDefault (x_sh y) (x_ss y) a <> None) /\
+   match nth_error (x_aux y) 1 with Some a => is_none (xstep_aux SelectDefault (x_sh y) (x_ss y) a) = false | None => False end) /\
   (let c := cfg_of Repaired 1 in
    let x := xrun c SelectDefault (xsys0 [[OResolve tA]; [OResolve tB]; [OResolve tC]] [])
               (repeat (true,0%nat) 4 ++ repeat (true,1%nat) 2 ++ repeat (true,2%nat) 2 ++ [(true,1%nat)]) in
-   exists cl, nth_error (x_cl x) 2 = Some cl /\ snd cl = O1 /\ xstep_client c (x_sh x) (x_ss x) cl = None).
-Proof.
-  vm_compute. split; [split|].
-  - eexists; split; reflexivity.
-  - eexists; split; [reflexivity | discriminate].
-  - eexists; repeat split; reflexivity.
-Qed.
+   match nth_error (x_cl x) 2 with
+   | Some cl => snd cl = O1 /\ is_none (xstep_client c (x_sh x) (x_ss x) cl) = true
+   | None => False
+   end).
+Proof. vm_compute. repeat split; reflexivity. Qed.
 Print Assumptions C20_x_waits_nonvacuous.
 
 (* ---------------------------------------------------------------- gauges *)
